@@ -12,8 +12,8 @@ structure Inv (s : St) : Prop where
   vresDom : ∀ v r, s.vres v = some r → s.res r ≠ none
   /-- recorded total supply = Σ of all vault balances, for every resource that tracks it -/
   supply_eq : ∀ r info, s.res r = some info → info.tracks = true → s.supply r = vsum s r
-  /-- XRD does not track its supply (the fee burn only emits an event) -/
-  xrd : ∀ info, s.res XRD = some info → info.tracks = false
+  /-- XRD exists and does not track its supply (the fee burn only emits an event) -/
+  xrd : ∃ info, s.res XRD = some info ∧ info.tracks = false
 
 theorem good_beginTx {s : St} (h : Inv s) : Good (beginTx s) := by
   refine ⟨⟨h.vnodup, by simp [beginTx], h.vdom, by intro b k hb; simp [beginTx] at hb, h.vresDom,
